@@ -8,11 +8,23 @@ package suites
 //	               pushed through Client.Send and a PING is sent by the peer, so that the
 //	               lines the client wrote for this round are exactly those in front of the
 //	               PONG.
-//	cap.ackremoval as cap.session, ACK lines may carry "-name" tokens (capability removal
-//	               acknowledgements); NOT part of conf/C08.json, see notes/findings-cap-sts.md.
+//	cap.enum       as cap.session; the fixed part is the COMPLETE set of sessions of at most 3
+//	               steps over a 9-letter alphabet of server lines (incl. a reconnect) under 3
+//	               configurations; the generated part draws longer sequences over the alphabet.
+//	cap.ackremoval as cap.session, but the generated ACK lines may carry "-name" tokens
+//	               (IRCv3: the server acknowledges that the capability was DISABLED).
+//
+// The oracle keeps two ledgers of "acknowledged and not since deleted": the IRCv3 reading
+// (a "-name" token removes name) and the literal one (every token is a name).  The property
+// is judged against the first; where the implementation differs from it but agrees with the
+// second, the failure is reported under the narrow class ack-removal-ignored (known finding,
+// notes/proposed-fixes/cap-ack-removal.diff), any other difference under hascap-mismatch /
+// tags-ungated / auth-unconfigured.
 //
 // A session case is: cfg bits, SupportedCaps, probe names, then one argument per CAP event
-// (its Params joined by LF).
+// (its Params joined by LF).  The argument "\x01reconnect" is not an event: the client is
+// closed and connected again (same Client, new pipe), which must start from empty
+// tmpCap / enabledCap ("advertised earlier on THIS connection").
 
 import (
 	"bufio"
@@ -268,6 +280,14 @@ func startCapSession(cc capCfg) *capSession {
 		s.upg++
 		s.umu.Unlock()
 	})
+	s.connect()
+	return s
+}
+
+// connect runs MockConnect on a fresh pipe and waits for the registration burst; the lines
+// of all connections of the session accumulate in s.lines.
+func (s *capSession) connect() {
+	mark := len(s.snapshot())
 	in, out := net.Pipe()
 	s.peer = in
 	go func() {
@@ -286,7 +306,7 @@ func startCapSession(cc capCfg) *capSession {
 	}()
 	go func() { s.done <- s.c.MockConnect(out) }()
 	s.waitFor(func(l []string) bool {
-		for _, x := range l {
+		for _, x := range l[mark:] {
 			if strings.HasPrefix(x, "USER ") {
 				return true
 			}
@@ -297,8 +317,26 @@ func startCapSession(cc capCfg) *capSession {
 	for !s.c.IsConnected() && time.Now().Before(dl) {
 		time.Sleep(200 * time.Microsecond)
 	}
-	return s
 }
+
+// reconnect closes the client, waits for Connect to return and connects again.
+func (s *capSession) reconnect() bool {
+	s.c.Close()
+	select {
+	case <-s.done:
+	case <-time.After(20 * time.Second):
+		return false
+	}
+	s.peer.Close()
+	dl := time.Now().Add(20 * time.Second)
+	for s.c.IsConnected() && time.Now().Before(dl) {
+		time.Sleep(200 * time.Microsecond)
+	}
+	s.connect()
+	return true
+}
+
+const capReconnect = "\x01reconnect"
 
 func (s *capSession) upgrades() int {
 	s.umu.Lock()
@@ -342,7 +380,7 @@ var builtinCapSet = func() map[string]bool {
 	return m
 }()
 
-func runCapSession(c Case, removalAware bool) Result {
+func runCapSession(c Case) Result {
 	if len(c) < 3 {
 		return Result{Obs: "?short-case"}
 	}
@@ -354,14 +392,20 @@ func runCapSession(c Case, removalAware bool) Result {
 	events := c[3:]
 
 	s := startCapSession(cc)
-	defer func() {
+	closed := false
+	cleanup := func() {
+		if closed {
+			return
+		}
+		closed = true
 		s.c.Close()
 		select {
 		case <-s.done:
 		case <-time.After(20 * time.Second):
 		}
 		s.peer.Close()
-	}()
+	}
+	defer cleanup()
 
 	var obs strings.Builder
 	var oracle string
@@ -373,24 +417,27 @@ func runCapSession(c Case, removalAware bool) Result {
 	sigs := map[string]bool{}
 
 	// registration burst
+	checkReg := func(reg []string) {
+		idx := func(prefix string) int {
+			for i, l := range reg {
+				if strings.HasPrefix(l, prefix) {
+					return i
+				}
+			}
+			return -1
+		}
+		ls, nick, user := idx("CAP LS 302"), idx("NICK "), idx("USER ")
+		if cc.noTracking {
+			if ls >= 0 {
+				fail("ls-order", "CAP LS sent although tracking is disabled")
+			}
+		} else if !(ls >= 0 && nick > ls && user > nick) {
+			fail("ls-order", "registration burst %q does not put CAP LS 302 before NICK and USER", reg)
+		}
+	}
 	reg := s.snapshot()
 	obs.WriteString("reg=" + HexList(reg))
-	idx := func(prefix string) int {
-		for i, l := range reg {
-			if strings.HasPrefix(l, prefix) {
-				return i
-			}
-		}
-		return -1
-	}
-	ls, nick, user := idx("CAP LS 302"), idx("NICK "), idx("USER ")
-	if cc.noTracking {
-		if ls >= 0 {
-			fail("ls-order", "CAP LS sent although tracking is disabled")
-		}
-	} else if !(ls >= 0 && nick > ls && user > nick) {
-		fail("ls-order", "registration burst %q does not put CAP LS 302 before NICK and USER", reg)
-	}
+	checkReg(reg)
 	poss := s.c.VerifPossibleCaps()
 	obs.WriteString("|poss=" + HexList(poss))
 
@@ -411,11 +458,60 @@ func runCapSession(c Case, removalAware bool) Result {
 		return false
 	}
 	advertised := map[string]bool{}
-	ledger := map[string]bool{} // acknowledged and not since deleted (exact tokens)
-	removed := map[string]bool{}
+	ledger := map[string]bool{}    // acknowledged and not since deleted / disabled (IRCv3 reading)
+	ledgerLit := map[string]bool{} // the same with "-name" read as a capability name
+	lookup := func(l map[string]bool, name string) bool {
+		for t := range l {
+			if asciiLower(t) == asciiLower(name) {
+				return true
+			}
+		}
+		return false
+	}
 	ended := false
 
+	probeAll := func(k int) {
+		obs.WriteString(";h=")
+		for _, p := range probes {
+			has, panicked := safeHasCap(s.c, p)
+			if panicked {
+				obs.WriteByte('!')
+				if !cc.noTracking {
+					fail("hascap-panic", "HasCapability(%q) panicked with tracking enabled", p)
+				}
+				continue
+			}
+			obs.WriteString(B(has))
+			if want := lookup(ledger, p); has != want {
+				if has == lookup(ledgerLit, p) {
+					fail("ack-removal-ignored", "round %d: HasCapability(%q)=%v; with \"-name\" in CAP ACK read as the acknowledged removal of name it must be %v", k, p, has, want)
+				} else {
+					fail("hascap-mismatch", "round %d: HasCapability(%q)=%v, acknowledged and not deleted=%v", k, p, has, want)
+				}
+			}
+		}
+	}
+
 	for k, ev := range events {
+		if ev == capReconnect {
+			mark := len(s.snapshot())
+			if !s.reconnect() {
+				fail("stall", "round %d: Connect did not return after Close", k)
+				obs.WriteString("|c:?")
+				break
+			}
+			// a new connection: nothing advertised, nothing acknowledged
+			advertised = map[string]bool{}
+			ledger = map[string]bool{}
+			ledgerLit = map[string]bool{}
+			reg := s.snapshot()[mark:]
+			checkReg(reg)
+			tmp, en := s.c.VerifCapState()
+			obs.WriteString("|c:reg=" + HexList(reg) + ";t=" + HexList(tmp) + ";e=" + HexList(en))
+			probeAll(k)
+			sigs["reconnect"] = true
+			continue
+		}
 		params := strings.Split(ev, "\n")
 		mark := len(s.snapshot())
 		upBefore := s.upgrades()
@@ -435,16 +531,17 @@ func runCapSession(c Case, removalAware bool) Result {
 				}
 			case sub == "ACK" && len(params) == 3:
 				for _, tok := range strings.Split(last, " ") {
-					ledger[tok] = true
-					if removalAware && strings.HasPrefix(tok, "-") && len(tok) > 1 {
-						removed[tok[1:]] = true
+					ledgerLit[tok] = true
+					if strings.HasPrefix(tok, "-") {
+						delete(ledger, tok[1:])
 					} else {
-						delete(removed, tok)
+						ledger[tok] = true
 					}
 				}
 			case sub == "DEL" && len(params) >= 2:
 				for _, tok := range strings.Split(last, " ") {
 					delete(ledger, capTokenName(tok))
+					delete(ledgerLit, capTokenName(tok))
 				}
 			}
 		}
@@ -541,7 +638,11 @@ func runCapSession(c Case, removalAware bool) Result {
 			if got {
 				wantTag := k%4 < 2 && ledger["message-tags"]
 				if tagged != wantTag {
-					fail("tags-ungated", "round %d: tag section present=%v, message-tags acknowledged=%v", k, tagged, ledger["message-tags"])
+					if tagged == (k%4 < 2 && ledgerLit["message-tags"]) {
+						fail("ack-removal-ignored", "round %d: tag section present=%v although the server acknowledged the removal of message-tags (ACK :-message-tags)", k, tagged)
+					} else {
+						fail("tags-ungated", "round %d: tag section present=%v, message-tags acknowledged=%v", k, tagged, ledger["message-tags"])
+					}
 				}
 			}
 		}
@@ -615,7 +716,11 @@ func runCapSession(c Case, removalAware bool) Result {
 				fail("round-open", "round %d: LS answered by %v", k, outs)
 			}
 			if strings.HasPrefix(strings.Join(outs, ","), "AUTH:") && (cc.sasl == "" || !ledger["sasl"]) {
-				fail("auth-unconfigured", "round %d: AUTHENTICATE without SASL configured and acknowledged", k)
+				if cc.sasl != "" && ledgerLit["sasl"] {
+					fail("ack-removal-ignored", "round %d: AUTHENTICATE although the server acknowledged the removal of sasl", k)
+				} else {
+					fail("auth-unconfigured", "round %d: AUTHENTICATE without SASL configured and acknowledged", k)
+				}
 			}
 			sigs[sub+fmt.Sprint(capMin(len(params), 5))+"/"+strings.SplitN(strings.Join(outs, ","), ":", 2)[0]] = true
 		} else {
@@ -624,46 +729,40 @@ func runCapSession(c Case, removalAware bool) Result {
 
 		// ---- HasCapability probes
 		if !ended {
-			obs.WriteString(";h=")
-			for _, p := range probes {
-				has, panicked := safeHasCap(s.c, p)
-				if panicked {
-					obs.WriteByte('!')
-					if !cc.noTracking {
-						fail("hascap-panic", "HasCapability(%q) panicked with tracking enabled", p)
-					}
-					continue
-				}
-				obs.WriteString(B(has))
-				want := false
-				for t := range ledger {
-					if asciiLower(t) == asciiLower(p) {
-						want = true
-					}
-				}
-				if has != want {
-					fail("hascap-mismatch", "round %d: HasCapability(%q)=%v, acknowledged and not deleted=%v", k, p, has, want)
-				}
-				if removalAware && has {
-					for rname := range removed {
-						if asciiLower(rname) == asciiLower(p) {
-							fail("ack-removal-ignored", "round %d: HasCapability(%q)=true after the server acknowledged its removal (ACK :-%s)", k, p, rname)
-						}
-					}
-				}
-			}
+			probeAll(k)
 		}
 		if ended {
 			break
 		}
 	}
+	// after the connection is gone HasCapability is false for every name (enabledCap itself
+	// is only cleared by the next connect)
+	cleanup()
+	dl := time.Now().Add(20 * time.Second)
+	for s.c.IsConnected() && time.Now().Before(dl) {
+		time.Sleep(200 * time.Microsecond)
+	}
+	obs.WriteString("|x=")
+	for _, p := range probes {
+		has, panicked := safeHasCap(s.c, p)
+		switch {
+		case panicked:
+			obs.WriteByte('!')
+		default:
+			obs.WriteString(B(has))
+			if has {
+				fail("hascap-disconnected", "HasCapability(%q)=true on a client that is not connected", p)
+			}
+		}
+	}
+
 	keys := make([]string, 0, len(sigs))
 	for k := range sigs {
 		keys = append(keys, k)
 	}
 	sort.Strings(keys)
-	if len(keys) > 4 {
-		keys = keys[:4]
+	if len(keys) > 6 {
+		keys = keys[:6]
 	}
 	return Result{Obs: obs.String(), Oracle: oracle, Sig: c[0] + "/" + strings.Join(keys, "+")}
 }
@@ -798,6 +897,10 @@ func genCapEvents(r *rand.Rand, removal bool) []string {
 				add("*", "LS", "*", "*", genCapAdvert(r, removal))
 			}
 		}
+		if r.Intn(10) == 0 {
+			evs = append(evs, capReconnect)
+			lastAdvert = nil
+		}
 	}
 	return evs
 }
@@ -835,6 +938,9 @@ func capSessionProbes(evs []string) string {
 		}
 	}
 	for _, ev := range evs {
+		if ev == capReconnect {
+			continue
+		}
 		p := strings.Split(ev, "\n")
 		for _, tok := range strings.Split(p[len(p)-1], " ") {
 			n := capTokenName(tok)
@@ -862,7 +968,7 @@ func capSessionSuite(name string, removal bool, fixed func() []Case) *Suite {
 			evs := genCapEvents(r, removal)
 			return append(Case{bits, sup, capSessionProbes(evs)}, evs...)
 		},
-		Run: func(c Case) Result { return runCapSession(c, removal) },
+		Run: func(c Case) Result { return runCapSession(c) },
 	}
 }
 
@@ -888,6 +994,10 @@ func init() {
 			{"T", "", "multi-prefix", ev("*", "LS", "multi-prefix"), ev("me", "ACK", "multi-prefix")},
 			{"", "", "a", ev("me", "ACK", "multi-prefix "), ev("me", "ACK", ""), ev("me", "DEL", "")},
 			{"", "", "multi-prefix", ev("*", "LS", "multi-prefix multi-prefix=x multi-prefix"), ev("me", "ACK", "multi-prefix multi-prefix")},
+			// reconnects: nothing advertised or acknowledged on the old connection survives
+			{"", "", "multi-prefix away-notify batch", ev("*", "LS", "*", "multi-prefix"), capReconnect, ev("*", "LS", "away-notify"), ev("me", "ACK", "away-notify"), capReconnect, ev("me", "NEW", "batch"), ev("me", "ACK", "batch")},
+			{"S", "", "sasl message-tags", ev("*", "LS", "sasl message-tags"), ev("me", "ACK", "sasl message-tags"), capReconnect, capReconnect, ev("*", "LS", "")},
+			{"T", "", "multi-prefix", ev("*", "LS", "multi-prefix"), capReconnect, ev("me", "ACK", "multi-prefix")},
 		}
 	}))
 	Register(capSessionSuite("cap.ackremoval", true, func() []Case {
@@ -895,4 +1005,59 @@ func init() {
 			{"", "", "away-notify -away-notify", ev("*", "LS", "away-notify"), ev("me", "ACK", "away-notify"), ev("me", "ACK", "-away-notify")},
 		}
 	}))
+}
+
+// ---- cap.enum: complete enumeration of short sessions
+
+var capEnumAlphabet = func() []string {
+	ev := func(p ...string) string { return strings.Join(p, "\n") }
+	return []string{
+		ev("*", "LS", "*", "multi-prefix sts=port=6697"), // continuation line
+		ev("*", "LS", "sasl message-tags"),               // final line
+		ev("*", "LS", "unknown-cap"),                     // nothing usable by itself
+		ev("me", "ACK", "sasl message-tags"),
+		ev("me", "ACK", "multi-prefix sts"),
+		ev("me", "NAK", "sasl"),
+		ev("me", "NEW", "batch"),
+		ev("me", "DEL", "message-tags batch"),
+		capReconnect,
+	}
+}()
+
+var capEnumConfigs = []string{"", "S", "SD"}
+
+const capEnumProbes = "sasl SASL message-tags multi-prefix batch sts"
+
+func init() {
+	Register(&Suite{
+		Name: "cap.enum",
+		Prop: []string{"C08"},
+		Exhaustive: "every sequence of at most 3 steps over 9 server lines (LS continuation, LS final, LS with nothing usable, " +
+			"two ACKs, NAK, NEW, DEL, reconnect) under the configurations {default, SASL, SASL+DisableSTS}: 3 x 820 sessions",
+		Fixed: func() []Case {
+			var out []Case
+			var rec func(prefix []string, depth int)
+			for _, bits := range capEnumConfigs {
+				rec = func(prefix []string, depth int) {
+					out = append(out, append(Case{bits, "", capEnumProbes}, prefix...))
+					if depth == 3 {
+						return
+					}
+					for _, a := range capEnumAlphabet {
+						rec(append(append([]string(nil), prefix...), a), depth+1)
+					}
+				}
+				rec(nil, 0)
+			}
+			return out
+		},
+		Gen: func(r *rand.Rand) Case {
+			c := Case{Pick(r, capEnumConfigs...), "", capEnumProbes}
+			for n := 4 + r.Intn(4); n > 0; n-- {
+				c = append(c, Pick(r, capEnumAlphabet...))
+			}
+			return c
+		},
+		Run: func(c Case) Result { return runCapSession(c) },
+	})
 }
